@@ -120,7 +120,9 @@ type itemEv struct {
 	heldZero               bool // PendingCount()==0 observed while the harness held the item in a worker
 }
 
-func (e *itemEv) submitted() bool { return e.submitEnd.ok() && e.submitErr == nil && e.submitPanic == "" }
+func (e *itemEv) submitted() bool {
+	return e.submitEnd.ok() && e.submitErr == nil && e.submitPanic == ""
+}
 
 type heldRec struct {
 	id, stage int
